@@ -9,6 +9,7 @@ package main
 //   spawn T set K V          Set in a goroutine; parks at gw.set.summoned (instance handed out, no vigil yet),
 //                            then at gw.set.vigil (vigil held, nothing written yet)
 //   spawn T del K            Delete in a goroutine; parks at destroy.draining when it removed the last record
+//   spawn T delm K1 K2       one Delete request with two keys (parks like spawn del)      → … | T done <st1>,<st2>
 //   spawn T close            Close() on the mapped instance in a goroutine; parks at swamp.closed (flushed, routines
 //                            cancelled, close callback — which removes the map entry — not yet called)
 //   spawnw T set K V         like spawn, but the request may have to wait for a closing instance → … | T wait-timeout
@@ -74,6 +75,10 @@ func c16Gen(rng *rand.Rand, tier string, w *bufio.Writer) {
 	c++
 	// a delete that finds the swamp already being destroyed gives its vigil back twice: the drain no longer waits for W
 	fmt.Fprintf(w, "case %d life d\nset a x\nspawn W set c z\ngo W\nspawn E set b y\ngo E\nspawnv D del b\nspawn B del a\ngo E\ngo D\ngow B\ngo W\npoll B\nreopen\nclose\nreopen\n", c)
+	c++
+	// a two-key Delete whose first key empties the swamp while an insert is in flight: the auto-destroy closes instead,
+	// and the second key must not be deleted on the closed instance
+	fmt.Fprintf(w, "case %d life d\nset a x\nspawn A set c y\ngo A\nspawn B delm a c\ngo A\ngo B\nreopen\nclose\nreopen\n", c)
 	c++
 	// sequential: delete, re-create, delete on a key that is in the file
 	fmt.Fprintf(w, "case %d life d\nset c x\nset a x\nclose\ndel c\nset c y\ndel c\nclose\nreopen\n", c)
@@ -389,9 +394,16 @@ func c16Run(in *bufio.Scanner, w *bufio.Writer) {
 		if th == "" {
 			return
 		}
-		if t := st.get(th); t != nil && t.parks[nm] {
-			st.events <- c16Ev{th: th, name: nm}
-			<-t.gate
+		if t := st.get(th); t != nil {
+			// every park point is used once per request (a two-key delete reaches destroy.draining a second time)
+			st.mu.Lock()
+			hit := t.parks[nm]
+			delete(t.parks, nm)
+			st.mu.Unlock()
+			if hit {
+				st.events <- c16Ev{th: th, name: nm}
+				<-t.gate
+			}
 		}
 	})
 	defer func() {
@@ -494,6 +506,16 @@ func c16Run(in *bufio.Scanner, w *bufio.Writer) {
 					t.parks["gw.del.vigil"] = true
 				}
 				run = func() string { return st.doDel(f[3]) }
+			case f[2] == "delm" && len(f) == 5:
+				t.parks["destroy.draining"] = true
+				run = func() string {
+					resp, err := st.gw().Delete(context.Background(), &hydrapb.DeleteRequest{Swamps: []*hydrapb.DeleteRequest_SwampKeys{{IslandID: 1, SwampName: st.swamp, Keys: []string{f[3], f[4]}}}})
+					if err != nil || resp == nil || len(resp.GetResponses()) != 1 || len(resp.GetResponses()[0].GetKeyStatuses()) != 2 {
+						return "ERR"
+					}
+					ks := resp.GetResponses()[0].GetKeyStatuses()
+					return c16Status(ks[0].GetStatus()) + "," + c16Status(ks[1].GetStatus())
+				}
 			case f[2] == "close" && len(f) == 3:
 				t.parks["swamp.closed"] = true
 				run = func() string {
